@@ -142,6 +142,6 @@ def run(cx, out):
     # ... and "decode successfully as B": what an encoder emits lies inside what the decoder of the target accepts (C03 R03.2:
     # validation guards of restricted targets, the bit-length limit on both sides)
     # byte-buffer aliases decode through the zero-copy cursor as well (C08 R08.4: it delivers the same bytes as a slice)
-    shared.premises(cx, out, {'c07': {'R07.1', 'R07.3'}, 'c01': {'R01.1'}, 'c03': {'R03.2'}, 'c08': {'R08.4'}})
+    shared.premises(cx, out, {'c07': {'R07.1', 'R07.3'}, 'c01': {'R01.1'}, 'c03': {'R03.2'}, 'c08': {'R08.2', 'R08.3', 'R08.4'}})
     from . import positive
     positive.check(cx, out, 'C16')
